@@ -1,13 +1,266 @@
-/- C08 — first layer; see DESIGN.md §5 -/
-import UBidi.Model.Reorder
-import UBidi.Spec.UAX9
-import UBidi.Spec.Reorder
-namespace UBidi.Props.C08
-open UBidi
+/-
+  C08 — the class and level vectors have exactly one entry per code unit, all code units of
+  one character carry the same class and level, every level lies between the level of its
+  paragraph and 126.
 
-/-- the analysis of the empty text is empty and does not fail -/
-theorem empty_text (ds : DataSource) (d : Option Nat) :
-    (bidiInfo ds (Text.ofScalars []) d).levels = [] ∧ (bidiInfo ds (Text.ofScalars []) d).err = none := by
-  constructor <;> rfl
+  Base layer (stage theorems):
+  * lengths: `C08_len_single` (ParagraphBidiInfo), `C08_len_multi_partial` (BidiInfo, relative
+    to the paragraphs being sub-ranges on character boundaries),
+  * uniformity within a character (`UniformOn`): `C08_uniform_classes`, `C08_uniform_explicit`,
+    `C08_uniform_resolveLevels`, `C08_uniform_fill`, composed in `C08_uniform_para_partial`,
+  * range: `C08_range_resolve`, `C08_range_fill`, composed in `C08_range_para_partial`.
+  Helper lemmas: UBidi/Lemmas/C08Base.lean, UBidi/Lemmas/C01Base.lean.
+-/
+import UBidi.Model.Pipeline
+import UBidi.Spec.UAX9
+import UBidi.Lemmas.C01Base
+import UBidi.Lemmas.C08Base
+namespace UBidi.Props.C08
+open UBidi UBidi.BidiClass
+open UBidi.Props.C01.Base UBidi.Props.C08.Base
+
+/-- `xs` (one entry per code unit) has the same entry at every code unit of each character of `t` -/
+def UniformOn {α} (t : Text) (xs : List α) : Prop :=
+  ∀ s ∈ t.segs, ∀ j, j < s.len → xs[s.start + j]? = xs[s.start]?
+
+/-! ### lengths -/
+
+/-- one class and one level per code unit of the text (`ParagraphBidiInfo`) -/
+theorem C08_len_single (ds : DataSource) (t : Text) (hwf : t.WF) (d : Option Nat) :
+    (paragraphBidiInfo ds t d).classes.length = t.len ∧
+    (paragraphBidiInfo ds t d).levels.length = t.len := by
+  have hc := initial_classes_length ds t hwf d false
+  refine ⟨hc, ?_⟩
+  exact paraLevels_length ds _ _ _ t hwf _
+
+/-- one class per code unit of the text (`BidiInfo`); the level vector is the concatenation of
+    the paragraphs' level vectors, each of length `stop - start`, provided every paragraph
+    range is a well-formed sub-text (true when its bounds are character boundaries: that, and
+    that the paragraphs tile `[0, t.len)` — so that the sum below is `t.len` — is C02's partition
+    fact; see `C08_len_multi_of_tiling`).
+
+    Full statement wanted: `(bidiInfo ds t d).levels.length = t.len` from `t.WF` alone.  Missing:
+    the proof that the paragraphs found by `compute_initial_info` start and stop on character
+    boundaries and tile `[0, t.len)` (property C02). -/
+theorem C08_len_multi_partial (ds : DataSource) (t : Text) (hwf : t.WF) (d : Option Nat)
+    (hp : ∀ p ∈ (bidiInfo ds t d).paras, (t.subrange p.start p.stop).WF) :
+    (bidiInfo ds t d).classes.length = t.len ∧
+    (bidiInfo ds t d).levels.length = ((bidiInfo ds t d).paras.map (fun p => p.stop - p.start)).sum := by
+  refine ⟨initial_classes_length ds t hwf d true, ?_⟩
+  have hpf := initial_paras_flags ds t d true
+  have hz : ((computeInitialInfo ds t d true).paras.zip (computeInitialInfo ds t d true).flags).map Prod.fst
+      = (computeInitialInfo ds t d true).paras := List.map_fst_zip (by omega)
+  have := bidi_fold_length
+    (fun (pf : ParaInfo × Flags) => paraLevels ds pf.1.level pf.2.pureLtr pf.2.hasIso
+      (t.subrange pf.1.start pf.1.stop) (slice (computeInitialInfo ds t d true).classes pf.1.start pf.1.stop))
+    (fun pf => pf.1.stop - pf.1.start)
+    ((computeInitialInfo ds t d true).paras.zip (computeInitialInfo ds t d true).flags)
+    (by
+      intro pf hpf'
+      have hmem : pf.1 ∈ (computeInitialInfo ds t d true).paras := (List.of_mem_zip hpf').1
+      rw [paraLevels_length ds _ _ _ _ (hp pf.1 hmem)]
+      rfl)
+    ([], (computeInitialInfo ds t d true).err)
+  rw [show (bidiInfo ds t d).paras = (computeInitialInfo ds t d true).paras from rfl, ← hz, List.map_map]
+  simp only [List.length_nil, Nat.zero_add] at this
+  exact this
+
+/-- `levels.length = t.len` for `BidiInfo`, relative to the partition fact -/
+theorem C08_len_multi_of_tiling (ds : DataSource) (t : Text) (hwf : t.WF) (d : Option Nat)
+    (hp : ∀ p ∈ (bidiInfo ds t d).paras, (t.subrange p.start p.stop).WF)
+    (htile : ((bidiInfo ds t d).paras.map (fun p => p.stop - p.start)).sum = t.len) :
+    (bidiInfo ds t d).classes.length = t.len ∧ (bidiInfo ds t d).levels.length = t.len := by
+  have := C08_len_multi_partial ds t hwf d hp
+  exact ⟨this.1, this.2.trans htile⟩
+
+/-! ### uniformity within a character -/
+
+/-- the original classes are uniform within each character, provided the data source gives
+    the classes RLI/LRI/FSI only to characters that take as many code units as U+2068 (true of
+    the Unicode data, where these are U+2066..U+2068; rule X5c rewrites `char_len(FSI)` units
+    at the position of an FSI).  Without the proviso the statement is false: see the test below. -/
+theorem C08_uniform_classes (ds : DataSource) (t : Text) (hwf : t.WF) (d : Option Nat) (split : Bool)
+    (hiso : ∀ s ∈ t.segs, (ds.cls s.cp).isIsolateInitiator = true →
+      t.enc.charLen s.cp = t.enc.charLen Gen.fcFSI) :
+    UniformOn t (computeInitialInfo ds t d split).classes :=
+  initial_classes_uniform ds t hwf d split hiso
+
+/-- explicit stage: levels and processing classes are uniform within each character -/
+theorem C08_uniform_explicit (t : Text) (hwf : t.WF) (pl : Nat) (ocs : List BidiClass) :
+    ∀ s ∈ t.segs, ∀ j, j < s.len →
+      (explicitCompute t pl ocs).levels[s.start + j]? = (explicitCompute t pl ocs).levels[s.start]? ∧
+      (explicitCompute t pl ocs).pcs[s.start + j]? = (explicitCompute t pl ocs).pcs[s.start]? :=
+  fun s hs j hj => ⟨(explicit_levels t hwf pl ocs).2 s hs j hj, (explicit_pcs t hwf pl ocs).2 s hs j hj⟩
+
+theorem C08_uniform_explicit' (t : Text) (hwf : t.WF) (pl : Nat) (ocs : List BidiClass) :
+    UniformOn t (explicitCompute t pl ocs).levels ∧ UniformOn t (explicitCompute t pl ocs).pcs :=
+  ⟨(explicit_levels t hwf pl ocs).2, (explicit_pcs t hwf pl ocs).2⟩
+
+/-- I1/I2 keep uniformity -/
+theorem C08_uniform_resolveLevels (t : Text) (pcs : Classes) (lv : List Nat)
+    (hl : UniformOn t lv) (hc : UniformOn t pcs) : UniformOn t (resolveLevels pcs lv).1 := by
+  intro s hs j hj
+  rw [resolveLevels_getElem?, resolveLevels_getElem?, hl s hs j hj, hc s hs j hj]
+
+/-- the removed-character fill keeps uniformity (no hypothesis on the lengths) -/
+theorem C08_uniform_fill (t : Text) (pl : Nat) (ocs : List BidiClass) (lv : List Nat)
+    (ho : UniformOn t ocs) (hl : UniformOn t lv) : UniformOn t (assignLevelsToRemovedChars pl ocs lv) := by
+  intro s hs j hj
+  unfold assignLevelsToRemovedChars
+  by_cases hb : s.start + j < lv.length
+  · -- all units up to `j` are inside `lv`
+    have hcls : ∀ i, i ≤ j → ocs.getD (s.start + i) .ON = ocs.getD s.start .ON := by
+      intro i hi
+      have := ho s hs i (by omega)
+      simp only [List.getD_eq_getElem?_getD, this]
+    by_cases hr : (ocs.getD s.start .ON).removedByX9 = true
+    · -- a removed character: every unit copies its predecessor
+      have : ∀ i, i ≤ j → (fillRemovedLoop pl ocs lv)[s.start + i]? = (fillRemovedLoop pl ocs lv)[s.start]? := by
+        intro i
+        induction i with
+        | zero => intro _; rfl
+        | succ i ih =>
+          intro hi
+          rw [fillLoop_spec pl ocs lv (s.start + (i + 1)) (by omega), hcls (i + 1) hi, hr]
+          have hne : s.start + (i + 1) ≠ 0 := by omega
+          simp only [if_true, hne, if_false]
+          exact ih (by omega)
+      exact this j (Nat.le_refl j)
+    · rw [fillLoop_spec pl ocs lv (s.start + j) hb, fillLoop_spec pl ocs lv s.start (by omega),
+        hcls j (Nat.le_refl j)]
+      simp only [hr]
+      exact hl s hs j hj
+  · -- outside `lv`: both sides are `none`
+    have h1 : lv[s.start + j]? = none := List.getElem?_eq_none (by omega)
+    have h2 : lv[s.start]? = none := by rw [← hl s hs j hj]; exact h1
+    have h3 : lv.length ≤ s.start := by
+      rcases Nat.lt_or_ge s.start lv.length with h | h
+      · rw [List.getElem?_eq_getElem h] at h2; cases h2
+      · exact h
+    rw [List.getElem?_eq_none (by rw [fillLoop_length]; omega),
+      List.getElem?_eq_none (by rw [fillLoop_length]; omega)]
+
+/-- the stored levels of one paragraph are uniform within each character — relative to the
+    W/N stage: the processing classes left by `resolveSequences` must be uniform.
+
+    Full statement wanted: the same without `hseq`.  Missing: the proof that `resolveWeak` and
+    `resolveNeutral` keep the processing classes uniform within characters (the `Expand`
+    lemma of the W and N stages, DESIGN.md §5, C01); the explicit, I1/I2 and fill stages are
+    proved here. -/
+theorem C08_uniform_levels_partial (ds : DataSource) (pl : Nat) (pure hasIso : Bool) (t : Text) (hwf : t.WF)
+    (ocs : List BidiClass) (ho : UniformOn t ocs)
+    (hseq : UniformOn t (resolveSequences ds t (explicitCompute t pl ocs).levels ocs
+      (isolatingRunSequences pl ocs (explicitCompute t pl ocs).levels (explicitCompute t pl ocs).runs hasIso).1
+      (explicitCompute t pl ocs).pcs).1) :
+    UniformOn t (paraLevels ds pl pure hasIso t ocs).1 := by
+  unfold paraLevels
+  split
+  · intro s hs j hj
+    have := segsFrom_bounds t.segs 0 t.len hwf.tiles s hs
+    simp only [List.getElem?_replicate]
+    rw [if_pos (by omega), if_pos (by omega)]
+  · exact C08_uniform_fill t pl ocs _ ho
+      (C08_uniform_resolveLevels t _ _ (C08_uniform_explicit' t hwf pl ocs).1 hseq)
+
+/-! ### range -/
+
+/-- level range of I1/I2: between the explicit level and 126 -/
+theorem C08_range_resolve (pl : Nat) (pcs : Classes) (lv : List Nat)
+    (h : ∀ l ∈ lv, pl ≤ l ∧ l ≤ 125) : ∀ l ∈ (resolveLevels pcs lv).1, pl ≤ l ∧ l ≤ 126 := by
+  intro l hl
+  simp only [resolveLevels, List.map_map, List.mem_map] at hl
+  obtain ⟨x, hx, rfl⟩ := hl
+  have hx1 := h x.1 (List.of_mem_zip hx).1
+  have := resolveLevel_range x.1 x.2
+  simp only [Function.comp]
+  omega
+
+/-- the removed-character fill stays in range -/
+theorem C08_range_fill (pl : Nat) (ocs : List BidiClass) (lv : List Nat)
+    (h : ∀ l ∈ lv, pl ≤ l ∧ l ≤ 126) : ∀ l ∈ assignLevelsToRemovedChars pl ocs lv, pl ≤ l ∧ l ≤ 126 := by
+  unfold assignLevelsToRemovedChars
+  cases lv with
+  | nil => cases ocs <;> simp [fillRemovedLoop]
+  | cons l0 ls =>
+    have h0 := h l0 (by simp)
+    exact fillLoop_range (fun l => pl ≤ l ∧ l ≤ 126) pl ocs (l0 :: ls) ⟨Nat.le_refl _, by omega⟩ h
+
+/-- every level of a paragraph lies between the paragraph level and 126 — relative to the
+    explicit stage giving levels in `[pl, 125]`.
+
+    Full statement wanted: the same without `hex`, for `pl ≤ 1`.  Missing here (and proved by
+    C11 as `C11_explicit_le_125`, which has exactly the shape of `hex`): the stack invariant of
+    the explicit machine.  The composition with it is left to the file that may import both. -/
+theorem C08_range_para_partial (ds : DataSource) (pl : Nat) (pure hasIso : Bool) (t : Text)
+    (ocs : List BidiClass) (hpl : pl ≤ 126)
+    (hex : ∀ l ∈ (explicitCompute t pl ocs).levels, pl ≤ l ∧ l ≤ 125) :
+    ∀ l ∈ (paraLevels ds pl pure hasIso t ocs).1, pl ≤ l ∧ l ≤ 126 := by
+  unfold paraLevels
+  split
+  · intro l hl
+    have := List.eq_of_mem_replicate hl
+    omega
+  · exact C08_range_fill pl ocs _ (C08_range_resolve pl _ _ hex)
+
+/-! ### non-vacuity and tests -/
+
+/-- the text "FSI alef PDI a é" (UTF-8, 11 code units, characters of 3, 2, 3, 1, 2 units) is
+    well-formed (`ofScalars_WF`, a proof for every `&str`) and the hardcoded data source
+    satisfies the proviso of `C08_uniform_classes` on it (test on this literal). -/
+example :
+    let t := Text.ofScalars [0x2068, 0x5D0, 0x2069, 0x61, 0xE9]
+    t.WF ∧ t.len = 11 ∧
+    (∀ s ∈ t.segs, (hardcoded.cls s.cp).isIsolateInitiator = true →
+      t.enc.charLen s.cp = t.enc.charLen Gen.fcFSI) :=
+  ⟨ofScalars_WF _, by decide, by decide +kernel⟩
+
+/-- on the same text: the classes (X5c has rewritten the three units of the FSI to RLI), the
+    levels, and that the hypotheses of `C08_uniform_levels_partial` (`ho`, `hseq`) and of
+    `C08_range_para_partial` (`hex`) hold for it.  (test on this literal) -/
+example :
+    let t := Text.ofScalars [0x2068, 0x5D0, 0x2069, 0x61, 0xE9]
+    let ocs : List BidiClass := [.RLI, .RLI, .RLI, .R, .R, .PDI, .PDI, .PDI, .L, .L, .L]
+    (computeInitialInfo hardcoded t none false).classes = ocs ∧
+    (paragraphBidiInfo hardcoded t none).levels = [0, 0, 0, 1, 1, 0, 0, 0, 0, 0, 0] ∧
+    (∀ l ∈ (explicitCompute t 0 ocs).levels, 0 ≤ l ∧ l ≤ 125) ∧
+    (resolveSequences hardcoded t (explicitCompute t 0 ocs).levels ocs
+      (isolatingRunSequences 0 ocs (explicitCompute t 0 ocs).levels (explicitCompute t 0 ocs).runs true).1
+      (explicitCompute t 0 ocs).pcs).1 = [.L, .L, .L, .R, .R, .L, .L, .L, .L, .L, .L] := by
+  refine ⟨by decide +kernel, by decide +kernel, by decide +kernel, by decide +kernel⟩
+
+/-- `UniformOn` is not vacuous and not trivial: on "a é" the vector `[0, 1, 1]` is uniform,
+    `[0, 1, 2]` is not. -/
+example : UniformOn (Text.ofScalars [0x61, 0xE9]) [0, 1, 1] ∧ ¬ UniformOn (Text.ofScalars [0x61, 0xE9]) [0, 1, 2] := by
+  constructor
+  · intro s hs j hj
+    have : s = ⟨0, 0x61, 1⟩ ∨ s = ⟨1, 0xE9, 2⟩ := by
+      simpa [Text.ofScalars, Text.layout, Enc.charLen, utf8Len] using hs
+    rcases this with rfl | rfl
+    · have : j = 0 := by simp at hj; omega
+      subst this; rfl
+    · have : j = 0 ∨ j = 1 := by simp at hj; omega
+      rcases this with rfl | rfl <;> rfl
+  · intro h
+    exact absurd (h ⟨1, 0xE9, 2⟩ (by decide) 1 (by decide)) (by decide)
+
+/-- the proviso of `C08_uniform_classes` cannot be dropped: a data source that calls the
+    one-unit character "a" an FSI makes X5c (`for j in 0..char_len(FSI)`, lib.rs:386) write three
+    units, and the two units of "é" end with the classes LRI, L.  (The Unicode data never does
+    this: the isolate initiators are U+2066..U+2068.) -/
+example :
+    let ds : DataSource :=
+      { cls := fun c => if c = 0x61 then .FSI else if c = 0x21 then .ON else .L, brk := fun _ => none }
+    let t := Text.ofScalars [0x61, 0x21, 0xE9]
+    (computeInitialInfo ds t none true).classes = [.LRI, .LRI, .LRI, .L] ∧
+    (computeInitialInfo ds t none true).err = none ∧
+    ¬ UniformOn t (computeInitialInfo ds t none true).classes := by
+  refine ⟨by decide, by decide, ?_⟩
+  intro h
+  exact absurd (h ⟨2, 0xE9, 2⟩ (by decide) 1 (by decide)) (by decide)
+
+/-- range theorems, sharpness of the bounds (test on literals): level 124 with EN reaches 126;
+    a removed first unit takes the paragraph level. -/
+example : (resolveLevels [.EN, .L] [124, 1]).1 = [126, 2] ∧
+    assignLevelsToRemovedChars 1 [.BN, .R] [5, 1] = [1, 1] := by decide
 
 end UBidi.Props.C08
